@@ -394,7 +394,8 @@ where
                             }))),
                         }))));
                     }
-                    if let Some((_, default, value)) = defaults.iter().flatten().find(|(name, ..)| {
+                    if let Some((_, default, value)) = defaults.iter().flatten().rev().find(|(name, ..)| {
+                        // (searched backwards: when a key is repeated, the last one wins)
                         // `a`, `"a"` and `["a"]` (or `1` and `"1"`) spell the same key
                         name.eq_ignore_span(&prop_name)
                             || prop_name_text(name)
